@@ -166,9 +166,13 @@ func coopDisclosures(x *scn.Exec, id, h string, fromSeq int) []mc.Violation {
 					// ground truth: is a payment call of this incarnation still blocked inside the Lightning
 					// client (it was started and has not returned)?
 					outstanding := 0
+					returnedSuccess := false // a payment call of this incarnation has RETURNED success to the node
 					for _, p := range x.W.Log[:q.Seq] {
 						if p.Node != scn.IDA || p.Inc != q.Inc || p.Hash != h {
 							continue
+						}
+						if (p.Kind == "ln.payclaim" && (p.Result == "succeeded" || p.Result == "complete")) || (p.Kind == "ln.payclaim.ret" && strings.HasSuffix(p.Result, ":ok")) {
+							returnedSuccess = true
 						}
 						if p.Kind == "ln.payclaim" && (p.Result == "hold" || p.Result == "join-pending") {
 							outstanding++
@@ -180,6 +184,8 @@ func coopDisclosures(x *scn.Exec, id, h string, fromSeq int) []mc.Violation {
 					switch {
 					case outstanding > 0:
 						cause = "payment_call_still_outstanding"
+					case returnedSuccess:
+						cause = "payment_call_had_returned_success"
 					case strings.Contains(le, "could not pay invoice"):
 						cause = "payment_errors"
 					case prev == "ClaimSwap":
